@@ -29,6 +29,7 @@ RULE = (
     "+/- compress, pickle device, pickle parameters, use reloaded solution as seed}; non-trivial = at least 3 storage operations "
     "compared on a run with >= 2 frames; distinct = scenario digests"
 )
+LIFECYCLES = {}  # shared object life cycles (scen.add_lifecycles) with their default rates
 BUDGET = {"quick": {"runs": 300, "chunk": 6}, "thorough": {"runs": 30000, "chunk": 10}}
 COMPONENTS = {"real": ["Solution.to_hdf5/from_hdf5", "Device/Polygon/Layer/Mesh/EdgeMesh (de)serialisation", "Parameter/CompositeParameter pickling", "SolverOptions round trip", "seeding a run from a reloaded solution"], "stub": ["wall clock (simulated, so time_created is reproducible)"]}
 ASSUMPTIONS = ["Only state produced by simulated runs is round-tripped; the quantifier over all devices/option combinations/expression trees is sampled, not covered."]
